@@ -35,8 +35,18 @@ def gen_real(rng, neg_ok, exp3_ok):
 def gen_name(rng):
     """Five-character block name as the four naming conventions produce them (canonical
     in-memory form: the (a3,i2) blank appears only after a non-digit third character)."""
-    conv = rng.randrange(5)
-    if conv == 0:      # 3 chars column + 2 digit layer
+    conv = rng.randrange(11)
+    if conv == 10:     # punctuation is allowed in the first three characters (valid_blockname)
+        p = rng.choice('+:#.-*')
+        body = rng.choice(LET) + rng.choice(LET)
+        nm = rng.choice((p + body, ' ' + p + body[0], body[0] + p + body[1])) + \
+            '%2d' % rng.randint(0, 99)
+        conv = -1
+    else:
+        conv %= 5
+    if conv == -1:
+        pass
+    elif conv == 0:      # 3 chars column + 2 digit layer
         col = ''.join(rng.choice(LET) for _ in range(rng.randint(1, 3))).rjust(3)
         nm = col + '%2d' % rng.randint(0, 99)
     elif conv == 1:    # 3 chars layer + 2 digit column
